@@ -394,8 +394,13 @@ func ruleCacheRecursion(c *Ctx) {
 			found := false
 			ast.Inspect(cond, func(m ast.Node) bool {
 				if be, ok := m.(*ast.BinaryExpr); ok && be.Op == token.NEQ {
-					if id, ok := ast.Unparen(be.X).(*ast.Ident); ok && id.Name == "index" {
-						found = true
+					// the index PARAMETER compared with something, either way round
+					for _, e := range []ast.Expr{be.X, be.Y} {
+						if id, ok := ast.Unparen(e).(*ast.Ident); ok && paramIndex(fd, info, info.Uses[id]) >= 0 {
+							if nt := namedOf(info.TypeOf(id)); nt != nil && nt.Obj().Name() == "ValidatorIndex" {
+								found = true
+							}
+						}
 					}
 				}
 				return true
